@@ -39,6 +39,7 @@ REAL_FORMATS = ["json", "yaml", "xml", "bson", "pickle"]
 INVARIANTS = ["TypeOK", "C19_Untouched", "C19_Exact", "C19_LoadsBack", "C19_FaultRaises"]
 PROPERTIES = ["C19_SerialiseThenOpen"]
 PRE_OPEN_STEPS = {"R", "E", "K", "G", "D"}
+WRITE_STEPS = {"W", "B", "C"}
 
 _ORIG = {
     "builtins.open": builtins.open,
@@ -330,7 +331,7 @@ class Bench:
                 else:
                     fld = kit.field(cls)
                 path = name
-            elif kind in ("secret", "esecret"):
+            elif kind in ("secret", "esecret", "bsecret"):
                 fld = kit.field("SecureField", method=ex.get("method", "best"))
                 path = name
             elif kind == "nsecret":
@@ -364,6 +365,8 @@ class Bench:
             if rng is None:
                 v += 10 * r
             return v
+        if kind == "bsecret":
+            return ""
         if kind in ("secret", "nsecret"):
             if rng is None:
                 return "s3cr3t-%d-%d" % (j, r)
@@ -537,17 +540,24 @@ def projection(events):
     """What C19 talks about: destination content at every observed moment, the write-side
     steps, the outcome of the save, the load.  (Order of the serialisation steps is not in it.)"""
     out = []
+    d0 = None
     for e in events:
         op = e["op"]
         if op == "Begin":
             out.append(("Begin", e["dest"]))
+            d0 = e["dest"]
         elif op in PRE_OPEN_STEPS:
-            if not out or out[-1] != ("pre", e["dest"]):
+            # which serialisation steps run, and in which order, is free; that the destination
+            # still holds what it held when save was called is not
+            if e["dest"] != d0 and out[-1] != ("pre", e["dest"]):
                 out.append(("pre", e["dest"]))
-        elif op in ("W", "B", "C"):
-            out.append((op, e["dest"]))
+        elif op in WRITE_STEPS:
+            # how the write phase is carried out (one handle, temp file + rename, chunks) is
+            # free; what it leaves behind is compared at End
+            if out[-1] != ("write-phase",):
+                out.append(("write-phase",))
         elif op == "End":
-            out.append(("End", e["out"], e["dest"], e["wopens"], e["wr"]))
+            out.append(("End", e["out"], e["dest"], e["wopens"] > 0, e["wr"] == "other"))
         elif op == "Load":
             out.append(("Load", e["out"], tuple(e["eq"])))
     return out
@@ -570,7 +580,8 @@ def compare(expected, observed):
         json.dumps(obs[n], sort_keys=True) if n < len(obs) else "<end>",
     )
     if pe == po:
-        return True, "drift:serialisation-step-order", detail
+        ops = {expected[n]["op"] if n < len(expected) else "End", obs[n]["op"] if n < len(obs) else "End"}
+        return True, ("drift:write-phase-shape" if ops & WRITE_STEPS else "drift:serialisation-step-order"), detail
     k = next((k for k in range(min(len(pe), len(po))) if pe[k] != po[k]), min(len(pe), len(po)))
     a = pe[k] if k < len(pe) else ("<end>",)
     b = po[k] if k < len(po) else ("<end>",)
@@ -619,7 +630,7 @@ def pool_map(fn, items, procs=16, chunk=64):
 
 
 # ---- TLC instances ---------------------------------------------------------------------
-def write_cfg(path, maxn, rounds, faults, kinds="MCKinds", formats="MCFormats", check=True, export=True):
+def write_cfg(path, maxn, rounds, faults, kinds="MCKinds", formats="MCFormats", check=True, export=True, blank=False):
     lines = [
         "CONSTANTS",
         "  MaxN = %d" % maxn,
@@ -627,6 +638,7 @@ def write_cfg(path, maxn, rounds, faults, kinds="MCKinds", formats="MCFormats", 
         "  MaxFaults = %d" % faults,
         "  Kinds <- %s" % kinds,
         "  Formats <- %s" % formats,
+        "  BlankSecretLost = %s" % ("TRUE" if blank else "FALSE"),
         "INIT Init",
         "NEXT Next",
     ]
@@ -642,7 +654,7 @@ def write_cfg(path, maxn, rounds, faults, kinds="MCKinds", formats="MCFormats", 
 INSTANCES = {
     "quick": [
         ("one save, 1..3 fields, every single fault", dict(maxn=3, rounds=1, faults=1)),
-        ("two saves in a row, 1 field", dict(maxn=1, rounds=2, faults=1)),
+        ("two saves in a row, 1 field, 3 formats", dict(maxn=1, rounds=2, faults=1, formats="MCFormats2")),
         ("one save, 1..2 fields, every pair of faults", dict(maxn=2, rounds=1, faults=2)),
     ],
     "thorough": [
@@ -653,13 +665,74 @@ INSTANCES = {
 }
 
 
+BLANK_SIGNATURE = "C19_LoadsBack:blank-secret-loads-back-as-none"
+
+
+def blank_secret_check(out, scratch, tier):
+    """A SecureField holding "" (named deviation BlankSecretLost of CincoSave).
+
+    TLC checks C19 on the intended design and on the mirror of the pinned tree; the real code
+    has to behave like one of the two.  If it behaves like the mirror and TLC found the property
+    violated on the mirror, that is a violation of C19 by the library (stable signature)."""
+    p = dict(maxn=2 if tier == "quick" else 3, rounds=1, faults=1, kinds="MCKindsB")
+    runs = {}
+    for name, kw in [
+        ("intended", dict(blank=False, check=True, export=True)),
+        ("mirror", dict(blank=True, check=True, export=False)),
+        ("mirror_export", dict(blank=True, check=False, export=True)),
+    ]:
+        cfg = os.path.join(scratch, "MC_CincoSave_blank_%s.cfg" % name)
+        write_cfg(cfg, **p, **kw)
+        runs[name] = tlc.run("MC_CincoSave.tla", cfg, workers=1, keep=("CASE",))
+    ri, rm, rx = runs["intended"], runs["mirror"], runs["mirror_export"]
+    if not ri.ok:
+        out.violation("spec:blank:%s" % ri.violation, "TLC: %s violated on the intended design with blank secrets" % ri.violation, {"kind": "tlc-counterexample", "behaviour": ri.cex})
+    key = lambda c: json.dumps(case_from_spec(c), sort_keys=True)  # noqa
+    mirror = {key(c): c for c in rx.printed.get("CASE", [])}
+    cases = ri.printed.get("CASE", [])
+    results = pool_map(_run_spec_case, cases)
+    deviating = []
+    bad = 0
+    for c, (cmp_, events) in zip(cases, results):
+        if cmp_ is None or cmp_[0]:
+            continue
+        m = mirror.get(key(c))
+        cm = compare(expected_events(m), events) if m is not None else cmp_
+        if cm is None or cm[0]:
+            deviating.append((c, m, events))
+            continue
+        bad += 1
+        if bad <= 5:
+            out.violation(cm[1], "spec->code (blank secret): save behaviour matches neither the intended design nor the mirror: %s" % cm[2], {"kind": "case-differs", "case": case_from_spec(c), "expected_by_spec": expected_events(c), "observed_on_code": events})
+    if deviating:
+        c, m, events = deviating[0]
+        if rm.violation is not None:
+            out.violation(
+                BLANK_SIGNATURE,
+                'C19_LoadsBack: a SecureField holding "" is written as null and loads back as None (%d of %d behaviours with a blank secret; '
+                "TLC: %s violated on the mirror specification, reproduced on the library)" % (len(deviating), len(cases), rm.violation),
+                {"kind": "named-deviation", "deviation": "BlankSecretLost", "tlc_violation_on_mirror": rm.violation, "tlc_counterexample": rm.cex, "case": case_from_spec(c), "expected_by_intended_spec": expected_events(c), "expected_by_mirror_spec": expected_events(m), "observed_on_code": events},
+            )
+        else:
+            out.notes.append("blank secret: code follows the mirror specification, on which TLC found no violation")
+    return {
+        "states": ri.distinct + rm.distinct + rx.distinct,
+        "transitions": ri.generated + rm.generated + rx.generated,
+        "behaviours": len(cases),
+        "behaviours_matching_mirror_only": len(deviating),
+        "tlc_on_mirror": rm.violation or "no violation",
+        "tlc_on_intended": ri.violation or "no violation",
+        "mismatching": bad,
+    }
+
+
 # ---- code -> spec driver -----------------------------------------------------------------
 def gen_case(rng):
     """A random schema / values / formats / fault sets; never consults the specification."""
     n = rng.choice([1, 2, 3, 4, 5, 6, 8, 10])
     kinds, extras = [], []
     for _ in range(n):
-        kind = rng.choice(["plain", "plain", "secret", "secret", "esecret", "nsecret", "set", "huge", "raw"])
+        kind = rng.choice(["plain"] * 6 + ["secret"] * 4 + ["esecret", "nsecret", "nsecret"] + rng.choice([["plain"], ["set", "huge", "raw"]]))
         ex = {}
         if kind == "plain":
             ex["cls"] = rng.choice(PLAIN_CLASSES)
@@ -674,14 +747,14 @@ def gen_case(rng):
     for r in range(rng.randrange(1, 5)):
         fmt = rng.choice(REAL_FORMATS + ["custom", "yaml", "pickle"])
         faults = []
-        if rng.random() < 0.55:
+        if rng.random() < 0.4:
             universe = [("fmt_unknown", 0), ("fmt_kwarg", 0), ("dump", 0)]
             universe += [("enc", j) for j in range(1, n + 1)] * 2
             universe += [("meth", j) for j in secrets] * 2
             for f in rng.sample(universe, min(len(universe), rng.choice([1, 1, 1, 2, 3]))):
                 if f not in faults:
                     faults.append(f)
-        ks = rng.choice(["K1", "K1", "K1", "bad", "absent"] if r == 0 else ["keep", "keep", "keep", "K1", "bad", "absent"])
+        ks = rng.choice(["K1"] * 5 + ["bad", "absent"] if r == 0 else ["keep"] * 5 + ["K1", "bad", "absent"])
         kw = {}
         if rng.random() < 0.3 and not any(f[0].startswith("fmt") for f in faults):
             kw = {"json": {"pretty": False}, "yaml": {"root_key": "ROOT"}, "xml": {"root_tag": "cfgroot"}}.get(fmt, {})
@@ -708,14 +781,30 @@ def classify_trace(v):
     if v.bad_inv:
         return False, "trace:" + ",".join(sorted(v.bad_inv))
     if v.bad_obs:
+        # the property's own predicates were evaluated by TLC on the observations of EVERY save
+        # of the trace at its first event (and held, else bad_inv); what remains is the shape
         bo = set(v.bad_obs)
+        got = v.trace["events"][v.at - 1]["op"] if v.at and v.at <= len(v.trace["events"]) else "?"
+        exp = (v.model or {}).get("op", "?")
         if bo == {"op"}:
-            got = v.trace["events"][v.at - 1]["op"] if v.at and v.at <= len(v.trace["events"]) else "?"
-            exp = (v.model or {}).get("op", "?")
             if got in PRE_OPEN_STEPS and exp in PRE_OPEN_STEPS:
                 return True, "drift:serialisation-step-order"
+            if (exp in WRITE_STEPS and got in WRITE_STEPS | {"End"}) or (exp == "End" and got in WRITE_STEPS):
+                return True, "drift:write-phase-shape"
+            if exp == "End" and got in PRE_OPEN_STEPS:
+                # the save went on where the specification expected it to raise: drift if it
+                # ends the same way (same outcome, destination, write-opens)
+                rest = v.trace["events"][v.at - 1 :]
+                end = next((e for e in rest if e["op"] in ("End", "Begin")), None)
+                m = v.model or {}
+                if end is not None and end["op"] == "End" and all(
+                    [end["out"] == m.get("out"), end["dest"] == m.get("dest"), (end["wopens"] > 0) == (m.get("wopens", 0) > 0), (end["wr"] == "other") == (m.get("wr") == "other")]
+                ):
+                    return True, "drift:serialisation-step-order"
             return False, "trace:step:%s-vs-%s" % (exp, got)
-        return False, "trace:" + ",".join(sorted(bo - {"op"}))
+        if bo == {"dest"} and exp in WRITE_STEPS:
+            return True, "drift:write-phase-shape"
+        return False, "trace:%s:" % exp + ",".join(sorted(bo - {"op"}))
     return False, "trace:not-enabled"
 
 
@@ -784,6 +873,12 @@ def run(tier, seed):
             pick = [c for c in cases if seq(c["rounds"])[0]["out"] == "raised" and len(seq(c["rounds"])[0]["log"]) > 3]
             samples.append({"spec_to_code_case": (pick or cases)[len(pick or cases) // 2]})
 
+    blank = blank_secret_check(out, scratch, tier)
+    states += blank["states"]
+    transitions += blank["transitions"]
+    n_exec += blank["behaviours"]
+    n_cases += blank["behaviours"]
+
     # (c) code -> spec: random driver on the real library, validated by TLC
     n_traces = 600 if tier == "quick" else 6000
     rng = random.Random(seed)
@@ -795,7 +890,7 @@ def run(tier, seed):
     tcfg = os.path.join(scratch, "Trace_CincoSave.cfg")
     with open(tcfg, "w") as fp:
         fp.write(
-            "CONSTANTS\n  MaxN = 1\n  MaxRounds = 1\n  MaxFaults = 0\n  Kinds <- TrKinds\n  Formats <- TrFormats\n"
+            "CONSTANTS\n  MaxN = 1\n  MaxRounds = 1\n  MaxFaults = 0\n  Kinds <- TrKinds\n  Formats <- TrFormats\n  BlankSecretLost = FALSE\n"
             "INIT TraceInit\nNEXT TraceNext\nACTION_CONSTRAINT Report\nCONSTRAINT ReportState\n"
         )
     verdicts, tstats = tracecheck.validate("Trace_CincoSave.tla", tcfg, [{"init": t["init"], "events": t["events"]} for t in traces])
@@ -827,6 +922,7 @@ def run(tier, seed):
         "transitions": transitions,
         "exhaustive": exhaustive,
         "tlc_instances": inst_cov,
+        "blank_secret_instance": blank,
         "traces_validated_against_impl": n_exec + len(verdicts),
         "spec_to_code_behaviours": n_exec,
         "spec_to_code_saves_by_outcome": dict(by_out),
